@@ -8,14 +8,14 @@ from ..frontend.pyfront import Repo
 from .common import need_class, need_func, methods
 
 LEVEL = 'other'
-TECHNIQUE = 'abstract interpretation of the real mutator / update methods (world, orbit, tides classes; super() and properties resolved through the class table) on a symbolic object graph; for every enumerated mutator sequence the exposed derived quantities are compared, as polynomial identities in the symbolic state, with those of a freshly built graph placed in the final state; plus a late-binding-closure lint and a cache guard-implication rule over update routines'
+TECHNIQUE = 'abstract interpretation of the real mutator / update methods (world, orbit, tides classes; super() and properties resolved through the class table) on a symbolic object graph; for every enumerated mutator sequence the exposed derived quantities are compared, as polynomial identities in the symbolic state, with those of a freshly built graph placed in the final state; plus a late-binding-closure lint and a cache guard-implication rule over update routines; the same comparison on a three-layer LayeredWorld (model holders stubbed as pure functions of their live inputs) and on a host-only system (tidal host + orbiting body without tides, real world_signature_to_index)'
 LEVEL_TEXT = ('Histories are unbounded; decided is history-independence for all mutator sequences up to length 2 (quick: 1 and selected 2) over {eccentricity, obliquity, spin, semi-major axis / orbital frequency / period, '
               'fixed Q, fixed dt, batched set_state} on the global-approximation (CPL and CTL) tidal model, for ALL numeric values of the state at once, using the repository\'s own methods for every step of the update cascade; '
               'together with two structural rules that cover the layered model: cached fields must be recomputed whenever a field they were computed from is recomputed, and stored closures must not capture loop variables.')
 LEVEL_NOTE = ('Trusted: front-end, interpreter (class table, properties, super()), the stub of configuration loading (attributes initialised as __init__/reinit do). Not decided: sequences longer than 2, array aliasing effects, '
-              'the layered model\'s numerical cascade (rheology/Cython models), thermal state (temperature) updates.')
+              'the numerical content of the rheology / thermal / Cython model holders of the layered model (stubbed as pure functions of their live inputs in R13.7/R13.8).')
 EXPLANATION = ('R13.3 history independence on the abstract object graph (single mutators and pairs) for CPL and CTL; R13.2 guard implication in update routines of the tidal classes; '
-               'R13.4 flag plumbing: each mutator reaches the tides update with the flag of what it changed; R13.5 late-binding closures; R13.6 a fully updated world equals the functional API at that state.')
+               'R13.4 flag plumbing: each mutator reaches the tides update with the flag of what it changed; R13.5 late-binding closures; R13.6 a fully updated world equals the functional API at that state; R13.7 history independence of a three-layer LayeredWorld incl. temperature changes; R13.8 per-layer heating equals the functional API on the inputs of that layer; R13.9 host-only dissipation: changes routed through the orbit, the orbiting body or the host leave the tidal quantities of the host and the cached da/dt, de/dt, dn/dt of the orbit equal to a fresh system.')
 
 QUANT = ('_tidal_heating_global', '_dUdM', '_dUdw', '_dUdO', '_tidal_susceptibility')
 
